@@ -333,7 +333,9 @@ void add_type(Node *node) {
       Node *stmt = node->body;
       while (stmt->next)
         stmt = stmt->next;
-      if (stmt->kind == ND_EXPR_STMT) {
+      // A typedef is kept as an expression statement that evaluates
+      // the sizes of variably modified types; it has no value.
+      if (stmt->kind == ND_EXPR_STMT && stmt->lhs && stmt->lhs->ty) {
         node->ty = stmt->lhs->ty;
         return;
       }
